@@ -515,8 +515,8 @@ impl LdapConnAsync {
         }
         let (_hostname, host_port) = match url.host_str() {
             Some(h) if !h.is_empty() => (h, format!("{}:{}", h, port)),
-            Some(h) if !h.is_empty() => ("localhost", format!("localhost:{}", port)),
-            _ => panic!("unexpected None from url.host_str()"),
+            // a missing or empty host means localhost
+            _ => ("localhost", format!("localhost:{}", port)),
         };
         let stream = match settings.std_stream {
             None => TcpStream::connect(host_port.as_str()).await?,
